@@ -382,7 +382,7 @@ Definition step_item {A : Type} (item : list N -> option (A * list N)) (st : lis
 Definition dec_items {A : Type} (item : list N -> option (A * list N)) (n : N) (bs : list N)
   : option (list A * list N) :=
   match iter_N_opt n (step_item item) ([], bs) with
-  | Some (acc, r) => Some (rev acc, r)
+  | Some (acc, r) => Some (rev_append acc [], r)   (* linear-time reversal *)
   | None => None
   end.
 
@@ -928,6 +928,34 @@ with normalize_tvariants (vs : tvariants) (name : str) (fv : json) {struct vs} :
   end.
 
 End Model.
+
+(* ------------------------------------------------------------------ well-formedness of schema types *)
+(** The only constraint: the tags of a [TaggedEnum] are pairwise distinct (they are the keys of a
+    [BTreeMap<u8, _>] in the implementation). *)
+Fixpoint tv_tags (vs : tvariants) : list N :=
+  match vs with TVnil => [] | TVcons t _ _ r => t :: tv_tags r end.
+Fixpoint nodup_N (l : list N) : bool :=
+  match l with [] => true | x :: r => negb (existsb (N.eqb x) r) && nodup_N r end.
+Fixpoint ty_wf (t : ty) : bool :=
+  match t with
+  | TPair a b => ty_wf a && ty_wf b
+  | TList _ e | TSet _ e | TArray _ e => ty_wf e
+  | TMap _ k v => ty_wf k && ty_wf v
+  | TStruct f => fields_wf f
+  | TEnum vs => variants_wf vs
+  | TTaggedEnum vs => nodup_N (tv_tags vs) && tvariants_wf vs
+  | _ => true
+  end
+with fields_wf (f : fields) : bool :=
+  match f with FNamed l => nfields_wf l | FUnnamed l => tys_wf l | FNone => true end
+with nfields_wf (l : nfields) : bool :=
+  match l with NFnil => true | NFcons _ t r => ty_wf t && nfields_wf r end
+with tys_wf (l : tys) : bool :=
+  match l with TSnil => true | TScons t r => ty_wf t && tys_wf r end
+with variants_wf (l : variants) : bool :=
+  match l with Vnil => true | Vcons _ f r => fields_wf f && variants_wf r end
+with tvariants_wf (l : tvariants) : bool :=
+  match l with TVnil => true | TVcons _ _ f r => fields_wf f && tvariants_wf r end.
 
 (* ------------------------------------------------------------------ well-formedness of JSON inputs *)
 (** What a [serde_json::Value] in memory always satisfies and the model's lists do not: strings are
